@@ -143,10 +143,20 @@ type translator struct {
 	ranCmd    map[types.Object]bool // … on which Run() has been called
 	attached  map[string]bool       // buffers attached to a command
 	localVals map[types.Object]bool // local struct values whose fields may be assigned (opts)
+	deferred  bool                  // the function defers an unlock
+
+	// methods already translated (by `<Type>.<name>`): what a call of one of them on the same receiver looks like
+	done map[string]*doneFn
+}
+
+type doneFn struct {
+	mutates, mayPanic bool
+	resTypes          []string
+	nparams           int
 }
 
 func newTranslator(fset *token.FileSet, jb *pkgInfo, repo string) *translator {
-	return &translator{fset: fset, jb: jb, repo: repo, idioms: map[string]string{}, structSeen: map[string]bool{}, mutable: map[string]map[string]bool{}}
+	return &translator{fset: fset, jb: jb, repo: repo, idioms: map[string]string{}, structSeen: map[string]bool{}, mutable: map[string]map[string]bool{}, done: map[string]*doneFn{}}
 }
 
 func (t *translator) miss(s string) { t.missing = append(t.missing, s) }
@@ -718,11 +728,13 @@ func (t *translator) block(stmts []ast.Stmt, k kont) string {
 				}
 				return s + deferred + k.ret(n, tmp)
 			},
+			// a panic below the `defer` (user code called there): Go runs the deferred call, then the panic goes on to the
+			// caller — the deferred event is recorded on the panic path too
 			pnc: func(n ast.Node) string {
-				t.fail(n, "a panicking call below a defer")
-				return ""
+				return "let σ := σ.emit (" + ev + ") -- deferred, on the panic path (" + t.jb.pos(d) + ")\n" + k.pnc(n)
 			},
 		}
+		t.deferred = true
 		return "-- " + t.jb.pos(d) + " `" + t.src(d) + "`\n" + t.block(stmts[1:], dk)
 	}
 	rest := kont{next: func() string { return t.block(stmts[1:], k) }, ret: k.ret, pnc: k.pnc}
@@ -1006,6 +1018,82 @@ func (t *translator) userCall(c *ast.CallExpr) (app string, nres int, ok bool) {
 	return "", 0, false
 }
 
+// selfCall: `<receiver>.<method>(args…)` where the method is a method of the receiver's type declared in this package
+// (a helper of the same job, e.g. `cu.do(ctx)`); `d` is nil when that method has not been translated
+func (t *translator) selfCall(c *ast.CallExpr) (name string, d *doneFn, ok bool) {
+	s, isSel := c.Fun.(*ast.SelectorExpr)
+	if !isSel || !t.isRecv(s.X) || t.recvType == "" {
+		return "", nil, false
+	}
+	sel, isM := t.jb.info.Selections[s]
+	if !isM || sel.Kind() != types.MethodVal {
+		return "", nil, false
+	}
+	fn, isFn := sel.Obj().(*types.Func)
+	if !isFn || !t.inJob(fn) {
+		return "", nil, false
+	}
+	name = t.recvType + "." + s.Sel.Name
+	return name, t.done[name], true
+}
+
+// selfCallStmt: the Lean term for a call of a translated method on the same receiver, as a statement or as the single
+// right-hand side of an assignment: the callee's definition is applied to the current state and receiver; the updated
+// receiver (if the callee assigns fields) replaces the current one — also when the callee panics
+func (t *translator) selfCallStmt(c *ast.CallExpr, name string, d *doneFn, lhs []ast.Expr, tok token.Token, k kont) string {
+	if d == nil {
+		t.fail(c, "call of %s, which is not translated", name)
+	}
+	if len(c.Args) != d.nparams {
+		t.fail(c, "%d arguments for %s", len(c.Args), name)
+	}
+	if lhs != nil && len(lhs) != len(d.resTypes) {
+		t.fail(c, "%d results assigned to %d variables", len(d.resTypes), len(lhs))
+	}
+	var args []string
+	for _, a := range c.Args {
+		args = append(args, t.atom(a))
+	}
+	r := t.fresh()
+	app := name + " X σ " + t.recvName
+	if len(args) > 0 {
+		app += " " + strings.Join(args, " ")
+	}
+	head := t.flush() + "let " + r + " := " + app + "\nlet σ := " + r + ".1\n"
+	rest := r + ".2"
+	if d.mutates {
+		if !t.mutates {
+			t.fail(c, "internal: call of a method that assigns receiver fields in a function not marked as mutating")
+		}
+		head += "let " + t.recvName + " := " + r + ".2.1\n"
+		rest = r + ".2.2"
+	}
+	n := len(d.resTypes)
+	if d.mayPanic {
+		if !t.mayPanic {
+			t.fail(c, "internal: call of a method that may panic in a function not marked as possibly panicking")
+		}
+		pat, binds := "_", ""
+		if lhs != nil {
+			pat = r + "v"
+			var vals []string
+			for i := range lhs {
+				vals = append(vals, proj(pat, i, n))
+			}
+			binds = t.bindAll(c, lhs, tok == token.DEFINE, vals)
+		}
+		return head + "(match " + rest + " with\n| .panicked =>\n" + ind(k.pnc(c)) + "\n| .returned " + pat + " =>\n" + ind(binds+k.next()) + ")"
+	}
+	if lhs == nil {
+		return head + k.next()
+	}
+	var vals []string
+	for i := range lhs {
+		vals = append(vals, proj("("+rest+")", i, n))
+	}
+	return head + t.bindAll(c, lhs, tok == token.DEFINE, vals) + k.next()
+}
+
 // bindAll: assign the values to the left-hand sides (receiver fields: write event + updated receiver; local
 // variables: `let`; `_`: dropped).  Go evaluates the right-hand sides first, then assigns left to right.
 func (t *translator) bindAll(x ast.Node, lhs []ast.Expr, define bool, vals []string) string {
@@ -1068,6 +1156,9 @@ func (t *translator) callStmt(c *ast.CallExpr, lhs []ast.Expr, tok token.Token, 
 			t.emit(ev)
 			return t.flush() + k.next()
 		}
+	}
+	if name, d, ok := t.selfCall(c); ok {
+		return t.selfCallStmt(c, name, d, lhs, tok, k)
 	}
 	if app, nres, ok := t.userCall(c); ok {
 		if lhs != nil && len(lhs) != nres {
@@ -1157,6 +1248,9 @@ func (t *translator) assign(x *ast.AssignStmt, k kont) string {
 	}
 	if len(x.Rhs) == 1 {
 		if c, ok := x.Rhs[0].(*ast.CallExpr); ok {
+			if _, _, isSelf := t.selfCall(c); isSelf {
+				return t.callStmt(c, x.Lhs, x.Tok, k)
+			}
 			if _, _, isUser := t.userCallProbe(c); isUser {
 				return t.callStmt(c, x.Lhs, x.Tok, k)
 			}
@@ -1192,6 +1286,12 @@ func (t *translator) userCallProbe(c *ast.CallExpr) (string, int, bool) {
 		}()
 		_, _, ok = t.userCall(c)
 	}()
+	if !ok {
+		// a method of the same receiver that calls user code can panic as well (an untranslated one: assume it can)
+		if _, d, isSelf := t.selfCall(c); isSelf && (d == nil || d.mayPanic) {
+			ok = true
+		}
+	}
 	return "", 0, ok
 }
 
@@ -1238,6 +1338,11 @@ func (t *translator) scanMutates(body *ast.BlockStmt) bool {
 				if _, ok := t.recvFieldAny(l); ok {
 					found = true
 				}
+			}
+		}
+		if c, ok := n.(*ast.CallExpr); ok {
+			if _, d, isSelf := t.selfCall(c); isSelf && d != nil && d.mutates {
+				found = true // the callee's updated receiver is taken over
 			}
 		}
 		return true
